@@ -145,6 +145,18 @@ func c17Edit(df *dst.File) {
 }
 
 func runC17(c *fw.Ctx) {
+	// synthetic sources with constructs whose declarations are reached out of order (a forward goto
+	// decorates its labelled statement from inside the branch statement)
+	if c.Shard == 0 {
+		for k, src := range []string{
+			"package p\n\nimport (\n\t\"fmt\"\n\t\"os\"\n)\n\nfunc f(n int) {\n\tif n > 0 {\n\t\tgoto done\n\t}\n\tfmt.Println(n)\nouter:\n\tfor i := 0; i < n; i++ {\n\t\tcontinue outer\n\t}\ndone:\n\tfmt.Fprintln(os.Stderr, os.Args, fmt.Sprint(n))\n}\n",
+			"package p\n\nimport \"strings\"\n\nfunc g(s string) string {\n\tgoto a\nb:\n\treturn strings.ToUpper(strings.TrimSpace(s))\na:\n\ts = strings.Repeat(s, 2)\n\tgoto b\n}\n",
+		} {
+			id := fmt.Sprintf("synthetic:forward-goto-%d", k)
+			c17Decorate(c, id, fmt.Sprintf("goto%d.go", k), []byte(src))
+			c17Restore(c, id, []byte(src))
+		}
+	}
 	var files []string
 	for _, p := range corpus.Sample(c.Rand("files"), c.Pick(1200, 0)) {
 		files = append(files, p)
